@@ -33,7 +33,7 @@ func VerifH_C02_Unchanged() {
 // path of the served directory.
 func VerifH_C17_NoDisclosure() {
 	verifWantOpenFault = true
-	run := runStep(true, true)
+	run := runStep(true, false)
 	verifWantOpenFault = false
 	defer verifCleanup()
 	m := run.req.method
